@@ -51,3 +51,16 @@ Definition ok_c16 (rows : list str) (obs : result (list obs_cap)) : bool :=
   | Ok caps => ok_text rows caps && ok_chain caps
   | Err _ => false
   end.
+
+(* captions may share (start, end) only when they were cut out of ONE displayed buffer (rows accumulated without a
+   flush in between): the number of distinct screens equals the number of buffers the program displays *)
+Fixpoint count_screens (obs : list obs_cap) : nat :=
+  match obs with
+  | [] => O
+  | a :: t => match t with
+              | b :: _ => if same_span a b then count_screens t else S (count_screens t)
+              | [] => 1%nat
+              end
+  end.
+Definition ok_c16_screens (rows : list str) (nbuffers : Z) (obs : result (list obs_cap)) : bool :=
+  ok_c16 rows obs && match obs with Ok caps => Z.of_nat (count_screens caps) =? nbuffers | Err _ => false end.
